@@ -29,6 +29,7 @@
 #include <nano/loss.h>
 #include <nano/machine/cluster.h>
 #include <nano/verif.h>
+#include <functional>
 #include <numeric>
 
 #ifndef NANO_VERIF
@@ -880,6 +881,34 @@ void run_case(uint64_t seed, long icase, bool thorough)
                     static_cast<long>(tsize), rows_str(Tref.data(), n, tsize).c_str(), rows_str(Xref.data(), n, isize).c_str());
     }
 
+    // ---- (extension) the per-sample loss values exactly as the objectives form them (same loss call, same double
+    // arithmetic for the outputs): the TERMS of the sums whose re-association the proved bound C09_fp_mean covers.
+    // The driver checks |fx - mean(terms)| <= gamma_{n + workers} mean|terms| + 2^-1075 in exact rational arithmetic.
+    {
+        tensor4d_t outs(cat_dims(n, ref.target_dims()));
+        tensor1d_t vb(n), vs(n), vg(n);
+        for (tensor_size_t i = 0; i < n; ++i)
+            for (tensor_size_t cc = 0; cc < tsize; ++cc) outs(i * tsize + cc) = gb.xbias(cc);
+        loss.value(Tref, outs, vb);
+        for (tensor_size_t i = 0; i < n; ++i)
+        {
+            const auto   s     = samples(i);
+            const auto   group = gb.cluster.group(s);
+            const double scale = (group < 0) ? 0.0 : gb.xscale(group);
+            for (tensor_size_t cc = 0; cc < tsize; ++cc)
+            {
+                const double so = gb.soutputs.data()[s * tsize + cc], wo = gb.woutputs.data()[s * tsize + cc];
+                const double sw = scale * wo; // one rounded product, one rounded sum: what the Eigen expression does (no FMA)
+                outs(i * tsize + cc) = so + sw;
+            }
+        }
+        loss.value(Tref, outs, vs);
+        for (tensor_size_t k = 0; k < n * tsize; ++k) outs(k) = gb.xgrads(k);
+        loss.value(Tref, outs, vg);
+        std::printf("AVALS %s n=%ld | bias=%s | scale=%s | grads=%s\n", id.c_str(), static_cast<long>(n), hexs(vb.data(), n).c_str(),
+                    hexs(vs.data(), n).c_str(), hexs(vg.data(), n).c_str());
+    }
+
     // ---- configurations ----
     const int nconfigs = thorough ? 5 : 3;
     struct result_t
@@ -1024,6 +1053,7 @@ void run_case(uint64_t seed, long icase, bool thorough)
             check_against("bias-naive", cid, fx, gx, rbias, bctx);
             if (!close(f2, fx, 2 * rbias.vtol)) fail("bias-value-only", cid, cmp_str(f2, fx, 2 * rbias.vtol) + " " + bctx);
             bias_results.push_back({fx, gx, cfg});
+            std::printf("ASSOC %s obj=bias workers=%zu zeros=%zu = %s\n", cid.c_str(), dataset.concurrency(), dataset.concurrency(), vh::hexf(fx).c_str());
             if (rid >= 0)
             {
                 cnt.model_lines++;
@@ -1044,6 +1074,7 @@ void run_case(uint64_t seed, long icase, bool thorough)
             check_against("scale-naive", cid, fx, gx, rscale, sctx);
             if (!close(f2, fx, 2 * rscale.vtol)) fail("scale-value-only", cid, cmp_str(f2, fx, 2 * rscale.vtol) + " " + sctx);
             scale_results.push_back({fx, gx, cfg});
+            std::printf("ASSOC %s obj=scale workers=%zu zeros=%zu = %s\n", cid.c_str(), dataset.concurrency(), dataset.concurrency(), vh::hexf(fx).c_str());
             if (rid >= 0)
             {
                 cnt.model_lines++;
@@ -1083,6 +1114,7 @@ void run_case(uint64_t seed, long icase, bool thorough)
                     }
                 }
                 grads_results.push_back({fx, gx, cfg});
+                std::printf("ASSOC %s obj=grads workers=%zu zeros=0 = %s\n", cid.c_str(), dataset.concurrency(), vh::hexf(fx).c_str());
                 if (rid >= 0)
                 {
                     cnt.model_lines++;
@@ -1124,6 +1156,415 @@ void run_case(uint64_t seed, long icase, bool thorough)
     cnt.cases++;
 }
 
+
+// =====================================================================================================================
+// (extension) REAL stage: small datasets, EVERY registered loss; the library's objectives against
+//   * an independent closed-form long-double implementation of the 11 loss kernels (nothing of the library's loss code),
+//   * a central finite difference of that closed-form value along a random direction (gradient = derivative of the value),
+//   * and, through the R* lines, the real-valued Coq specification (per-run interval lemmas generated by tools/checks/c09.py).
+// Lines: RLOSSES ids=a,b,...     the registry of the library
+//        RLIN  <id> loss=<name> alpha=<hex> isize= tsize= l1= l2= | T=rows | X=rows | x=.. = <value> | <gradient>
+//        RBIAS <id> loss= alpha= | T=rows | x=.. = <value> | <gradient>
+//        RSCALE <id> loss= alpha= | T=rows | x=.. | groups=.. | S=rows | W=rows = <value> | <gradient>      (per position)
+//        RGRADS <id> loss= alpha= | T=rows | O=rows = <value> | <gradient rows>
+// =====================================================================================================================
+struct closed_loss_t
+{
+    std::string base;
+    ld          alpha{0.5L};
+    static ld   sgn(ld a) { return a > 0 ? 1.0L : a < 0 ? -1.0L : 0.0L; }
+    ld          value(const double* t, const ld* o, tensor_size_t k) const
+    {
+        ld v = 0;
+        if (base == "classnll")
+        {
+            ld m = o[0];
+            for (tensor_size_t c = 1; c < k; ++c) m = std::max(m, o[c]);
+            ld se = std::numeric_limits<double>::epsilon(), pos = 0;
+            for (tensor_size_t c = 0; c < k; ++c)
+            {
+                se += std::exp(o[c] - m);
+                if (t[c] > 0) pos += o[c];
+            }
+            return std::log(se) - pos + m;
+        }
+        for (tensor_size_t c = 0; c < k; ++c)
+        {
+            const ld tc = t[c], oc = o[c];
+            if (base == "mse") v += 0.5L * (oc - tc) * (oc - tc);
+            else if (base == "mae") v += std::fabs(oc - tc);
+            else if (base == "cauchy") v += 0.5L * std::log((tc - oc) * (tc - oc) + 1.0L);
+            else if (base == "pinball") v += alpha * std::max(tc - oc, 0.0L) + (1.0L - alpha) * std::max(oc - tc, 0.0L);
+            else if (base == "hinge") v += std::max(1.0L - tc * oc, 0.0L);
+            else if (base == "squared-hinge") v += std::max(1.0L - tc * oc, 0.0L) * std::max(1.0L - tc * oc, 0.0L);
+            else if (base == "savage") v += 1.0L / ((1.0L + std::exp(tc * oc)) * (1.0L + std::exp(tc * oc)));
+            else if (base == "tangent") v += (2.0L * std::atan(tc * oc) - 1.0L) * (2.0L * std::atan(tc * oc) - 1.0L);
+            else if (base == "logistic") v += std::log1p(std::exp(-tc * oc));
+            else if (base == "exponential") v += std::exp(-tc * oc);
+        }
+        return v;
+    }
+    void grad(const double* t, const ld* o, tensor_size_t k, ld* g) const
+    {
+        if (base == "classnll")
+        {
+            ld m = o[0];
+            for (tensor_size_t c = 1; c < k; ++c) m = std::max(m, o[c]);
+            ld se = 0;
+            for (tensor_size_t c = 0; c < k; ++c) se += std::exp(o[c] - m);
+            for (tensor_size_t c = 0; c < k; ++c) g[c] = std::exp(o[c] - m) / se - (t[c] > 0 ? 1.0L : 0.0L);
+            return;
+        }
+        for (tensor_size_t c = 0; c < k; ++c)
+        {
+            const ld tc = t[c], oc = o[c];
+            if (base == "mse") g[c] = oc - tc;
+            else if (base == "mae") g[c] = sgn(oc - tc);
+            else if (base == "cauchy") g[c] = (oc - tc) / (1.0L + (oc - tc) * (oc - tc));
+            else if (base == "pinball") g[c] = -alpha + 0.5L * (1.0L - sgn(tc - oc));
+            else if (base == "hinge") g[c] = -tc * (sgn(1.0L - tc * oc) + 1.0L) * 0.5L;
+            else if (base == "squared-hinge") g[c] = -tc * std::max(1.0L - tc * oc, 0.0L) * 2.0L;
+            else if (base == "savage") g[c] = -2.0L * tc / ((1.0L + std::exp(tc * oc)) * (1.0L + std::exp(tc * oc)) * (1.0L + std::exp(-tc * oc)));
+            else if (base == "tangent") g[c] = 4.0L * tc * (2.0L * std::atan(tc * oc) - 1.0L) / (1.0L + (tc * oc) * (tc * oc));
+            else if (base == "logistic") g[c] = -tc * (std::exp(-tc * oc) / (1.0L + std::exp(-tc * oc)));
+            else if (base == "exponential") g[c] = -tc * std::exp(-tc * oc);
+        }
+    }
+    bool smooth() const { return base != "mae" && base != "pinball" && base != "hinge"; }
+    bool kinked_value() const { return base == "mae" || base == "pinball" || base == "hinge" || base == "squared-hinge"; }
+};
+
+std::string base_of(const std::string& id)
+{
+    return (id.rfind("s-", 0) == 0 || id.rfind("m-", 0) == 0) ? id.substr(2) : id;
+}
+
+long real_lines = 0, real_cases = 0, real_fd = 0;
+std::map<std::string, int> real_losses;
+
+void run_real_case(uint64_t seed, long icase)
+{
+    gen_t g(seed);
+    g.exact = false;
+    const auto ids = loss_t::all().ids();
+    const auto loss_id = ids[static_cast<size_t>(icase) % ids.size()];
+    const auto base    = base_of(loss_id);
+    const auto id      = "r" + std::to_string(icase);
+    const bool sclass  = loss_id.rfind("s-", 0) == 0;
+    const bool mclass  = loss_id.rfind("m-", 0) == 0;
+
+    // tiny dataset: 1..4 samples, 1..2 features (scalar / struct / sclass, some values missing), target by loss type
+    case_t c;
+    c.rows            = g.rng.range(1, 4);
+    const auto nfeats = g.rng.range(1, 2);
+    for (int64_t f = 0; f < nfeats; ++f)
+    {
+        static const kind_t fk[] = {k_scalar, k_scalar, k_struct, k_sclass};
+        c.feats.push_back(g.feature(c.rows, fk[g.rng.range(0, 3)], g.rng.range(0, 2) == 0));
+    }
+    c.feats.push_back(g.feature(c.rows, sclass ? k_sclass : mclass ? k_mclass : (g.rng.range(0, 1) ? k_scalar : k_struct), false));
+    c09_datasource_t ds(c);
+    ds.load();
+
+    indices_t samples(c.rows);
+    for (tensor_size_t i = 0; i < c.rows; ++i) samples(i) = i;
+    if (c.rows > 1 && g.rng.range(0, 2) == 0) std::swap(samples(0), samples(c.rows - 1));
+    const auto n = samples.size();
+
+    const auto threads = static_cast<size_t>(g.rng.range(1, 3));
+    const auto mode    = modes[g.rng.range(0, 3)];
+    dataset_t  dataset{ds, threads};
+    dataset.add<sclass_identity_generator_t>();
+    dataset.add<mclass_identity_generator_t>();
+    dataset.add<scalar_identity_generator_t>();
+    dataset.add<struct_identity_generator_t>();
+    const auto isize = dataset.columns();
+    const auto tsize = ::nano::size(dataset.target_dims());
+    if (isize <= 0 || tsize <= 0 || isize > 4) return;
+
+    // the exact inputs of the specification: what the library's own single-threaded direct calls deliver
+    tensor2d_t X(n, isize);
+    tensor4d_t T(cat_dims(n, dataset.target_dims()));
+    {
+        tensor2d_t fb;
+        tensor4d_t tb;
+        const auto fstats = scalar_stats_t::make_flatten_stats(dataset, samples);
+        const auto tstats = scalar_stats_t::make_targets_stats(dataset, samples);
+        X                 = dataset.flatten(samples, fb);
+        fstats.scale(mode, X.tensor());
+        T = dataset.targets(samples, tb);
+        tstats.scale(mode, T.tensor());
+    }
+    for (tensor_size_t i = 0; i < X.size(); ++i) if (!std::isfinite(X(i))) return;
+    for (tensor_size_t i = 0; i < T.size(); ++i) if (!std::isfinite(T(i))) return;
+
+    auto rloss = loss_t::all().get(loss_id);
+    if (!rloss) { fail("setup", id, "unknown loss " + loss_id); return; }
+    closed_loss_t cl;
+    cl.base = base;
+    if (base == "pinball")
+    {
+        static const double alphas[] = {0.5, 0.25, 0.125, 0.75, 0.9};
+        const double        a        = alphas[g.rng.range(0, 4)];
+        rloss->parameter("loss::pinball::alpha") = a;
+        cl.alpha                                 = a;
+    }
+    const auto& loss = *rloss;
+    real_losses[loss_id]++;
+    real_cases++;
+
+    static const double regs[] = {0.0, 0.0, 0.5, 1.0, 0.125, 2.0, 0.1, 3.0};
+    const double        l1 = regs[g.rng.range(0, 7)], l2 = regs[g.rng.range(0, 7)];
+    const auto          lsize = (isize + 1) * tsize;
+    vector_t            xlin(lsize), xlin0(lsize);
+    for (tensor_size_t k = 0; k < lsize; ++k) { xlin(k) = g.par(); xlin0(k) = g.par(); }
+    const auto groups = g.rng.range(1, 3);
+    cluster_t  cluster(dataset.samples(), groups);
+    for (tensor_size_t s = 0; s < dataset.samples(); ++s) if (g.rng.range(0, 3) != 0) cluster.assign(s, g.rng.range(0, groups - 1));
+    tensor4d_t so(cat_dims(dataset.samples(), dataset.target_dims())), wo(cat_dims(dataset.samples(), dataset.target_dims()));
+    for (tensor_size_t i = 0; i < so.size(); ++i) { so(i) = g.val(); wo(i) = g.rng.range(0, 7) == 0 ? 0.0 : g.val(); }
+    vector_t xs(groups), xs0(groups), xb(tsize), xb0(tsize), xg(n * tsize), xg0(n * tsize);
+    for (tensor_size_t k = 0; k < groups; ++k) { xs(k) = g.par(); xs0(k) = g.par(); }
+    for (tensor_size_t k = 0; k < tsize; ++k) { xb(k) = g.par(); xb0(k) = g.par(); }
+    for (tensor_size_t k = 0; k < n * tsize; ++k) { xg(k) = g.val(); xg0(k) = g.val(); }
+
+    std::string bk;
+    const auto  batch = pick_batch(g, n, bk);
+    auto        fit   = flatten_iterator_t{dataset, samples};
+    fit.batch(batch);
+    fit.scaling(mode);
+    if (g.rng.range(0, 1)) { fit.cache_flatten(std::numeric_limits<tensor_size_t>::max()); fit.cache_targets(std::numeric_limits<tensor_size_t>::max()); }
+    auto tit = targets_iterator_t{dataset, samples};
+    tit.batch(batch);
+    tit.scaling(mode);
+    if (g.rng.range(0, 1)) tit.cache_targets(std::numeric_limits<tensor_size_t>::max());
+
+    const auto ts   = static_cast<size_t>(tsize);
+    const auto head = " loss=" + loss_id + " alpha=" + vh::hexf(static_cast<double>(cl.alpha));
+    const auto ctx  = "loss=" + loss_id + " mode=" + std::to_string(static_cast<int>(mode)) + " n=" + std::to_string(n) + " isize=" +
+                     std::to_string(isize) + " tsize=" + std::to_string(tsize) + " threads=" + std::to_string(threads) + " batch=" +
+                     std::to_string(batch) + " replay: c09_objectives realcase " + std::to_string(icase);
+    const auto Tstr = rows_str(T.data(), n, tsize);
+
+    // closed-form value / gradient of mean_i loss(t_i, out_i(theta)) for outputs given by a callback, in long double
+    std::vector<ld> o(ts), gl(ts);
+    const auto check = [&](const std::string& what, double fx, const vector_t& gx, ld ref, const std::vector<ld>& gref, ld vmag,
+                           const std::vector<ld>& gmag, bool amb)
+    {
+        const ld vtol = 1e-9L * (1.0L + vmag);
+        if (!std::isfinite(fx) || std::fabs(static_cast<ld>(fx) - ref) > vtol)
+        {
+            fail("real-" + what + "-value", id, "impl=" + vh::hexf(fx) + " closed-form=" + vh::hexf(static_cast<double>(ref)) + " tol=" +
+                                                    vh::hexf(static_cast<double>(vtol)) + " " + ctx);
+            return;
+        }
+        if (amb) return;
+        for (tensor_size_t k = 0; k < gx.size(); ++k)
+        {
+            const ld gtol = 1e-9L * (1.0L + gmag[static_cast<size_t>(k)]);
+            if (!std::isfinite(gx(k)) || std::fabs(static_cast<ld>(gx(k)) - gref[static_cast<size_t>(k)]) > gtol)
+            {
+                fail("real-" + what + "-grad", id, "coordinate=" + std::to_string(k) + " impl=" + vh::hexf(gx(k)) + " closed-form=" +
+                                                       vh::hexf(static_cast<double>(gref[static_cast<size_t>(k)])) + " " + ctx);
+                return;
+            }
+        }
+    };
+    const auto near_kink = [&](const double* t, const ld* oo)
+    {
+        if (!cl.kinked_value() && cl.base != "classnll") return false;
+        for (size_t cc = 0; cc < ts; ++cc)
+        {
+            const ld tc = t[cc], oc = oo[cc];
+            const ld d  = (cl.base == "mae" || cl.base == "pinball") ? std::fabs(oc - tc) : std::fabs(1.0L - tc * oc);
+            if (cl.base != "classnll" && d < 1e-9L) return true;
+        }
+        return false;
+    };
+
+    // ---- linear ----
+    {
+        const auto function = linear::function_t{fit, loss, l1, l2};
+        vector_t   gx(lsize), gx0(lsize);
+        function.vgrad(xlin0, gx0);
+        const auto fx = function.vgrad(xlin, gx);
+        cnt.evals += 2;
+        const auto value_at = [&](const std::vector<ld>& th, std::vector<ld>* grad, std::vector<ld>* gmag, ld* vmag, bool* amb) -> ld
+        {
+            ld v = 0;
+            if (grad) grad->assign(static_cast<size_t>(lsize), 0);
+            if (gmag) gmag->assign(static_cast<size_t>(lsize), 0);
+            for (tensor_size_t i = 0; i < n; ++i)
+            {
+                for (tensor_size_t cc = 0; cc < tsize; ++cc)
+                {
+                    ld a = th[static_cast<size_t>(isize * tsize + cc)];
+                    for (tensor_size_t j = 0; j < isize; ++j) a += th[static_cast<size_t>(cc * isize + j)] * X(i, j);
+                    o[static_cast<size_t>(cc)] = a;
+                }
+                const ld vi = cl.value(T.data() + i * tsize, o.data(), tsize);
+                v += vi;
+                if (vmag) *vmag += std::fabs(vi);
+                if (amb && near_kink(T.data() + i * tsize, o.data())) *amb = true;
+                if (grad)
+                {
+                    cl.grad(T.data() + i * tsize, o.data(), tsize, gl.data());
+                    for (tensor_size_t cc = 0; cc < tsize; ++cc)
+                    {
+                        for (tensor_size_t j = 0; j < isize; ++j)
+                        {
+                            (*grad)[static_cast<size_t>(cc * isize + j)] += gl[static_cast<size_t>(cc)] * X(i, j);
+                            (*gmag)[static_cast<size_t>(cc * isize + j)] += std::fabs(gl[static_cast<size_t>(cc)] * X(i, j));
+                        }
+                        (*grad)[static_cast<size_t>(isize * tsize + cc)] += gl[static_cast<size_t>(cc)];
+                        (*gmag)[static_cast<size_t>(isize * tsize + cc)] += std::fabs(gl[static_cast<size_t>(cc)]);
+                    }
+                }
+            }
+            v /= static_cast<ld>(n);
+            const auto wsize = isize * tsize;
+            ld         ab = 0, sq = 0;
+            for (tensor_size_t k = 0; k < wsize; ++k) { ab += std::fabs(th[static_cast<size_t>(k)]); sq += th[static_cast<size_t>(k)] * th[static_cast<size_t>(k)]; }
+            const ld reg = static_cast<ld>(l1) * ab / static_cast<ld>(wsize) + static_cast<ld>(l2) / 2 * sq / static_cast<ld>(wsize);
+            if (vmag) *vmag = *vmag / static_cast<ld>(n) + reg;
+            if (grad)
+                for (tensor_size_t k = 0; k < lsize; ++k)
+                {
+                    auto& gk = (*grad)[static_cast<size_t>(k)];
+                    gk /= static_cast<ld>(n);
+                    (*gmag)[static_cast<size_t>(k)] /= static_cast<ld>(n);
+                    if (k < wsize)
+                    {
+                        const ld w  = th[static_cast<size_t>(k)];
+                        const ld rg = static_cast<ld>(l1) * closed_loss_t::sgn(w) / static_cast<ld>(wsize) + static_cast<ld>(l2) * w / static_cast<ld>(wsize);
+                        gk += rg;
+                        (*gmag)[static_cast<size_t>(k)] += std::fabs(rg);
+                    }
+                }
+            return v + reg;
+        };
+        std::vector<ld> th(static_cast<size_t>(lsize)), gref, gmag;
+        for (tensor_size_t k = 0; k < lsize; ++k) th[static_cast<size_t>(k)] = xlin(k);
+        ld   vmag = 0;
+        bool amb  = false;
+        const ld ref = value_at(th, &gref, &gmag, &vmag, &amb);
+        check("lin", fx, gx, ref, gref, vmag, gmag, amb);
+        // gradient = derivative of the (closed-form) value: central difference along a random direction
+        bool zero_w = false;
+        for (tensor_size_t k = 0; k < isize * tsize; ++k) zero_w = zero_w || xlin(k) == 0.0;
+        if (cl.smooth() && !amb && !(l1 > 0 && zero_w))
+        {
+            std::vector<ld> d(static_cast<size_t>(lsize)), tp(th), tm(th);
+            ld              gd = 0, dmax = 0;
+            for (tensor_size_t k = 0; k < lsize; ++k)
+            {
+                d[static_cast<size_t>(k)] = 2.0L * g.rng.unit() - 1.0L;
+                gd += static_cast<ld>(gx(k)) * d[static_cast<size_t>(k)];
+                dmax = std::max(dmax, std::fabs(d[static_cast<size_t>(k)]));
+            }
+            const ld h = 1e-6L;
+            for (tensor_size_t k = 0; k < lsize; ++k) { tp[static_cast<size_t>(k)] += h * d[static_cast<size_t>(k)]; tm[static_cast<size_t>(k)] -= h * d[static_cast<size_t>(k)]; }
+            const ld fd  = (value_at(tp, nullptr, nullptr, nullptr, nullptr) - value_at(tm, nullptr, nullptr, nullptr, nullptr)) / (2 * h);
+            const ld tol = 1e-5L * (1.0L + std::fabs(gd) + vmag * 64.0L * (1.0L + static_cast<ld>(isize)) * (1.0L + static_cast<ld>(isize)) * (1.0L + static_cast<ld>(isize)));
+            real_fd++;
+            if (std::fabs(fd - gd) > tol)
+                fail("real-lin-derivative", id, "<gx,d>=" + vh::hexf(static_cast<double>(gd)) + " finite difference of the closed-form value=" +
+                                                    vh::hexf(static_cast<double>(fd)) + " " + ctx);
+        }
+        real_lines++;
+        std::printf("RLIN %s%s isize=%ld tsize=%ld l1=%s l2=%s | T=%s | X=%s | x=%s = %s | %s\n", id.c_str(), head.c_str(), static_cast<long>(isize),
+                    static_cast<long>(tsize), vh::hexf(l1).c_str(), vh::hexf(l2).c_str(), Tstr.c_str(), rows_str(X.data(), n, isize).c_str(),
+                    hexs(xlin.data(), lsize).c_str(), vh::hexf(fx).c_str(), hexs(gx.data(), lsize).c_str());
+    }
+    // ---- bias / scale / grads: outputs given per sample by a callback ----
+    const auto gb_check = [&](const std::string& what, double fx, const vector_t& gx, const std::function<void(tensor_size_t, ld*)>& outputs,
+                              const std::function<void(tensor_size_t, const ld*, std::vector<ld>&, std::vector<ld>&)>& scatter, tensor_size_t gsize)
+    {
+        ld              v = 0, vmag = 0;
+        bool            amb = false;
+        std::vector<ld> gref(static_cast<size_t>(gsize), 0), gmag(static_cast<size_t>(gsize), 0);
+        for (tensor_size_t i = 0; i < n; ++i)
+        {
+            outputs(i, o.data());
+            const ld vi = cl.value(T.data() + i * tsize, o.data(), tsize);
+            v += vi;
+            vmag += std::fabs(vi);
+            amb = amb || near_kink(T.data() + i * tsize, o.data());
+            cl.grad(T.data() + i * tsize, o.data(), tsize, gl.data());
+            scatter(i, gl.data(), gref, gmag);
+        }
+        for (auto& x : gref) x /= static_cast<ld>(n);
+        for (auto& x : gmag) x /= static_cast<ld>(n);
+        check(what, fx, gx, v / static_cast<ld>(n), gref, vmag / static_cast<ld>(n), gmag, amb);
+    };
+    {
+        const auto function = gboost::bias_function_t{tit, loss};
+        vector_t   gx(tsize), gx0(tsize);
+        function.vgrad(xb0, gx0);
+        const auto fx = function.vgrad(xb, gx);
+        cnt.evals += 2;
+        gb_check("bias", fx, gx, [&](tensor_size_t, ld* oo) { for (tensor_size_t cc = 0; cc < tsize; ++cc) oo[cc] = xb(cc); },
+                 [&](tensor_size_t, const ld* gg, std::vector<ld>& gr, std::vector<ld>& gm)
+                 { for (size_t cc = 0; cc < ts; ++cc) { gr[cc] += gg[cc]; gm[cc] += std::fabs(gg[cc]); } }, tsize);
+        real_lines++;
+        std::printf("RBIAS %s%s | T=%s | x=%s = %s | %s\n", id.c_str(), head.c_str(), Tstr.c_str(), hexs(xb.data(), tsize).c_str(), vh::hexf(fx).c_str(),
+                    hexs(gx.data(), tsize).c_str());
+    }
+    {
+        const auto function = gboost::scale_function_t{tit, loss, cluster, so, wo};
+        vector_t   gx(groups), gx0(groups);
+        function.vgrad(xs0, gx0);
+        const auto fx = function.vgrad(xs, gx);
+        cnt.evals += 2;
+        gb_check("scale", fx, gx,
+                 [&](tensor_size_t i, ld* oo)
+                 {
+                     const auto s = samples(i);
+                     const auto gr = cluster.group(s);
+                     for (tensor_size_t cc = 0; cc < tsize; ++cc)
+                         oo[cc] = static_cast<ld>(so.data()[s * tsize + cc]) + (gr < 0 ? 0.0L : static_cast<ld>(xs(gr)) * wo.data()[s * tsize + cc]);
+                 },
+                 [&](tensor_size_t i, const ld* gg, std::vector<ld>& gr, std::vector<ld>& gm)
+                 {
+                     const auto s = samples(i);
+                     const auto grp = cluster.group(s);
+                     if (grp < 0) return;
+                     for (tensor_size_t cc = 0; cc < tsize; ++cc)
+                     {
+                         gr[static_cast<size_t>(grp)] += gg[cc] * wo.data()[s * tsize + cc];
+                         gm[static_cast<size_t>(grp)] += std::fabs(gg[cc] * wo.data()[s * tsize + cc]);
+                     }
+                 }, groups);
+        // per position: group, strong and weak outputs of the sample at that position
+        indices_t  grp(n);
+        tensor2d_t Sp(n, tsize), Wp(n, tsize);
+        for (tensor_size_t i = 0; i < n; ++i)
+        {
+            grp(i) = cluster.group(samples(i));
+            for (tensor_size_t cc = 0; cc < tsize; ++cc) { Sp(i, cc) = so.data()[samples(i) * tsize + cc]; Wp(i, cc) = wo.data()[samples(i) * tsize + cc]; }
+        }
+        real_lines++;
+        std::printf("RSCALE %s%s | T=%s | x=%s | groups=%s | S=%s | W=%s = %s | %s\n", id.c_str(), head.c_str(), Tstr.c_str(), hexs(xs.data(), groups).c_str(),
+                    ints_str(grp.data(), n).c_str(), rows_str(Sp.data(), n, tsize).c_str(), rows_str(Wp.data(), n, tsize).c_str(), vh::hexf(fx).c_str(),
+                    hexs(gx.data(), groups).c_str());
+    }
+    {
+        const auto function = gboost::grads_function_t{tit, loss};
+        const auto gsize    = n * tsize;
+        vector_t   gx(gsize), gx0(gsize);
+        function.vgrad(xg0, gx0);
+        const auto fx = function.vgrad(xg, gx);
+        cnt.evals += 2;
+        gb_check("grads", fx, gx, [&](tensor_size_t i, ld* oo) { for (tensor_size_t cc = 0; cc < tsize; ++cc) oo[cc] = xg(i * tsize + cc); },
+                 [&](tensor_size_t i, const ld* gg, std::vector<ld>& gr, std::vector<ld>& gm)
+                 { for (tensor_size_t cc = 0; cc < tsize; ++cc) { gr[static_cast<size_t>(i * tsize + cc)] += gg[cc]; gm[static_cast<size_t>(i * tsize + cc)] += std::fabs(gg[cc]); } },
+                 gsize);
+        real_lines++;
+        std::printf("RGRADS %s%s | T=%s | O=%s = %s | %s\n", id.c_str(), head.c_str(), Tstr.c_str(), rows_str(xg.data(), n, tsize).c_str(), vh::hexf(fx).c_str(),
+                    rows_str(gx.data(), n, tsize).c_str());
+    }
+}
+
 template <class tmap>
 std::string hist_str(const tmap& m)
 {
@@ -1148,6 +1589,20 @@ int main(int argc, char** argv)
     const auto case_seed = [&](long icase) { return (seed * 0x9E3779B97F4A7C15ULL) ^ (0xC09ULL + 0xD1B54A32D192ED03ULL * static_cast<uint64_t>(icase + 1)); };
     try
     {
+        if (mode == "real" || mode == "realcase")
+        {
+            // (extension) c09_objectives real <cases> [first]   |   c09_objectives realcase <index>
+            const auto rseed = [&](long icase) { return (seed * 0x9E3779B97F4A7C15ULL) ^ (0x9C09ULL + 0xD1B54A32D192ED03ULL * static_cast<uint64_t>(icase + 1)); };
+            std::string idlist;
+            for (const auto& i : loss_t::all().ids()) idlist += (idlist.empty() ? "" : ",") + i;
+            std::printf("RLOSSES ids=%s\n", idlist.c_str());
+            long ncases = argc > 2 ? std::atol(argv[2]) : 34, first = argc > 3 ? std::atol(argv[3]) : 0;
+            if (mode == "realcase") { first = ncases; ncases = 1; }
+            for (long icase = first; icase < first + ncases; ++icase) run_real_case(rseed(icase), icase);
+            std::printf("DONE real_cases=%ld real_lines=%ld real_fd=%ld fails=%ld evals=%ld losses=%s\n", real_cases, real_lines, real_fd, cnt.fails,
+                        cnt.evals, hist_str(real_losses).c_str());
+            return 0;
+        }
         if (mode == "case" && argc > 2)
         {
             const auto icase = std::atol(argv[2]);
